@@ -70,6 +70,19 @@ macro_rules! ops {
             dflt: None,
         }
     };
+    // ==, partial_cmp only (MapUnion<VecMap>: VecMap lacks cc_traits::Iter, hence no IsBot)
+    (cmp $T:ty) => {
+        Ops::<$T> {
+            merge: None,
+            eq: f_eq!($T, $T),
+            ne: Some((|a: &$T, b: &$T| a != b) as fn(&$T, &$T) -> bool),
+            pc: f_pc!($T, $T),
+            rel: f_rel!($T, $T),
+            is_bot: None,
+            is_top: None,
+            dflt: None,
+        }
+    };
     // full lattice type without Default
     (lat $T:ty) => {
         Ops::<$T> { merge: f_merge!($T, $T), ..ops!(ord $T) }
@@ -239,34 +252,34 @@ pub fn table() -> Vec<Entry> {
     own!(v, latd, BM<HS>, q, p(3, 2, 2));
     own!(v, latd, BM<MxU>, q, t3);
     own!(v, latd, BM<WbMx>, q, t3);
-    own!(v, ord, VM<HS>, q, p(2, 3, 2));
-    own!(v, ord, VM<MxU>, q, p(3, 2, 2));
+    own!(v, cmp, VM<HS>, q, p(2, 3, 2));
+    own!(v, cmp, VM<MxU>, q, p(3, 2, 2));
     own!(v, ord, AM2<WbMx>, q, t3);
     own!(v, ord, OM<HS>, q, t3);
     own!(v, ord, SM<HS>, q, t3);
     let m = p(2, 3, 2);
     cross!(v, latd HM<HS>, latd BM<HS>, [delta, sym, ord], q, m);
     cross!(v, latd HM<HS>, latd HM<BS>, [delta, sym, ord], q, m);
-    cross!(v, latd HM<HS>, ord VM<HS>, [delta, ord], q, m);
+    cross!(v, latd HM<HS>, cmp VM<HS>, [delta, ord], q, m);
     cross!(v, latd HM<HS>, ord AM1<HS>, [delta, ord], q, m);
     cross!(v, latd HM<HS>, ord AM2<HS>, [delta, ord], q, m);
     cross!(v, latd HM<HS>, ord OM<HS>, [delta, ord], q, m);
     cross!(v, latd HM<HS>, ord SM<HS>, [delta, ord], q, m);
     cross!(v, latd HM<HS>, ord SM<SS>, [delta, ord], q, m);
-    cross!(v, latd HM<HS>, ord VM<OS>, [delta, ord], q, m);
+    cross!(v, latd HM<HS>, cmp VM<OS>, [delta, ord], q, m);
     cross!(v, latd BM<HS>, ord SM<SS>, [delta, ord], q, m);
-    cross!(v, latd BM<HS>, ord VM<BS>, [delta, ord], q, m);
+    cross!(v, latd BM<HS>, cmp VM<BS>, [delta, ord], q, m);
     cross!(v, latd HM<MxU>, latd BM<MxU>, [delta, sym, ord], q, t3);
-    cross!(v, latd HM<MxU>, ord VM<MxU>, [delta, ord], q, p(3, 2, 2));
+    cross!(v, latd HM<MxU>, cmp VM<MxU>, [delta, ord], q, p(3, 2, 2));
     cross!(v, latd HM<MxU>, ord AM2<MxU>, [delta, ord], q, t3);
     cross!(v, latd HM<MxU>, ord OM<MxU>, [delta, ord], q, t3);
     cross!(v, latd HM<MxU>, ord SM<MxU>, [delta, ord], q, t3);
     cross!(v, latd HM<WbMx>, latd BM<WbMx>, [delta, sym, ord], q, t3);
-    cross!(v, latd HM<WbMx>, ord VM<WbMx>, [delta, ord], q, q);
+    cross!(v, latd HM<WbMx>, cmp VM<WbMx>, [delta, ord], q, q);
     cross!(v, latd HM<WbMx>, ord AM2<WbMx>, [delta, ord], q, t3);
     cross!(v, latd HM<WbMx>, ord SM<WbMx>, [delta, ord], q, t3);
     cross!(v, latd BM<WbMx>, ord OM<WbMx>, [delta, ord], q, t3);
-    cross!(v, ord VM<HS>, ord SM<SS>, [ord], q, m);
+    cross!(v, cmp VM<HS>, ord SM<SS>, [ord], q, m);
     cross!(v, ord OM<HS>, ord AM1<HS>, [ord], q, m);
 
     // ---- WithBot / WithTop -------------------------------------------------------------------
